@@ -6,7 +6,7 @@ from ..sdenv import FOREVER
 from .common import Mode1, conformance, judge
 
 SVCS = ["s1", "s2", "s3"]
-FLTS = ["F1", "F2", "F3", "F4"]
+FLTS = ["F1", "F2", "F3", "F4", "F5"]
 # find entries carry the ids of the watched filter: name them by the FLT table
 VARIANTS = {
     "A": dict(initMin=0, initMax=1, reps=2, base=1),
@@ -29,13 +29,16 @@ def name_finds(ev):
     return ev
 
 
-def run_schedule(sched, var, watch0, rand):
+def run_schedule(sched, var, watch0, rand, with_egs=False):
     v = VARIANTS[var]
     st = sdenv.Stack(tim=sdenv.timings(INITIAL_DELAY_MIN=v["initMin"], INITIAL_DELAY_MAX=v["initMax"],
                                        REPETITIONS_MAX=v["reps"], REPETITIONS_BASE_DELAY=v["base"], FIND_TTL=FIND_TTL),
                      rand=list(rand))
     d = st.prot.discovery
     lsts = {}
+
+    def flt(name):     # with_egs: the watched description also names eventgroups (as a server-side description does)
+        return sdenv.service(name, eventgroups=frozenset([1, 2])) if with_egs else sdenv.service(name)
 
     def listener(name):          # one listener object per name: watching twice is the same registration
         if name not in lsts:
@@ -44,11 +47,11 @@ def run_schedule(sched, var, watch0, rand):
     if isinstance(watch0, dict):            # {listener: [filters]}  (Mode 2: the registrations of the configuration)
         for l, fs in watch0.items():
             for f in fs:
-                d.watch_service(sdenv.service(f), listener(l))
+                d.watch_service(flt(f), listener(l))
     else:
         lst = listener("L1")
         for f in watch0:
-            d.watch_service(sdenv.service(f), lst)
+            d.watch_service(flt(f), lst)
 
     def do(inp):
         ev = {k: x for k, x in inp.items() if k not in ("t", "j")}
@@ -60,7 +63,7 @@ def run_schedule(sched, var, watch0, rand):
         elif op == "disc_stop":
             st.call(ev, d.stop)
         elif op == "watch":
-            st.call(ev, d.watch_service, sdenv.service(inp["flt"]), listener(inp["lst"]))
+            st.call(ev, d.watch_service, flt(inp["flt"]), listener(inp["lst"]))
         elif op == "connlost":
             st.call(ev, st.prot.connection_lost, None)
     tmax = 0
@@ -123,9 +126,10 @@ def traces_for(seed, count, length):
         watch0 = rng.sample(FLTS, rng.randint(1, 4))
         sched = gen(rng, rng.randint(2, length), var)
         rand = [rng.choice([0, 1, 2, 3]) for _ in range(10)]
-        ev, _ = run_schedule(sched, var, watch0, rand)
+        with_egs = n % 4 == 3
+        ev, _ = run_schedule(sched, var, watch0, rand, with_egs)
         out.append({"cfg": mon_cfg(var, watch0), "ev": monpass.add_adv(ev), "sched": sched, "var": var, "watch0": watch0,
-                    "rand": rand, "diag": {"variant": var}})
+                    "rand": rand, "with_egs": with_egs, "diag": {"variant": var, "filters_with_eventgroups": with_egs}})
     return out
 
 
@@ -148,16 +152,16 @@ def structured():
                         sid = {"reboot": 1, "stop": 7, "refresh": 6}[how]
                         sched.append({"t": t1 + gap, "j": 2, "op": "rx", "src": "a1", "mc": True, "sid": sid, "rb": True, "uc": True,
                                       "es": [{"ty": "offer", "svc": "s1", "ttl": b, "opts": []}]})
-                        watch0 = ["F2", "F3"]
+                        watch0 = ["F5", "F3"] if (a + gap) % 2 else ["F2", "F3"]
                         rand = [0] * 10
-                        ev, _ = run_schedule(sched, var, watch0, rand)
+                        ev, _ = run_schedule(sched, var, watch0, rand, with_egs=(b == 5))
                         out.append({"cfg": mon_cfg(var, watch0), "ev": monpass.add_adv(ev), "sched": sched, "var": var,
                                     "watch0": watch0, "rand": rand, "diag": {"variant": var, "family": "record replaced: " + how}})
     return out
 
 
 def payload(tr):
-    return {k: tr[k] for k in ("sched", "var", "watch0", "rand")} | {"trace": tr["ev"]}
+    return {k: tr[k] for k in ("sched", "var", "watch0", "rand")} | {"trace": tr["ev"], "with_egs": tr.get("with_egs", False)}
 
 
 def spec_consts(var, watch0):
@@ -207,7 +211,7 @@ def check(ctx):
 
 def replay(ctx, rep):
     p = rep["payload"]
-    ev, _ = run_schedule(p["sched"], p["var"], p["watch0"], p["rand"])
+    ev, _ = run_schedule(p["sched"], p["var"], p["watch0"], p["rand"], p.get("with_egs", False))
     tr = {"cfg": mon_cfg(p["var"], p["watch0"]), "ev": monpass.add_adv(ev), "sched": p["sched"], "var": p["var"],
           "watch0": p["watch0"], "rand": p["rand"]}
     bad, _ = judge(ctx, "Mon_C13", [tr], "replay", payload)
